@@ -14,9 +14,23 @@ def run_check(d, pid, tier):
     lines = [l for l in p.stdout.splitlines() if l.startswith("VIOLATION") or l.startswith("  check=")]
     return dict(exit=p.returncode, wall_s=round(time.time() - t, 1), first=" | ".join(lines[:2])[:500])
 
+def anchors():
+    """file -> properties anchored in it (from properties.jsonl)"""
+    m = {}
+    for line in open(ROOT + "/properties.jsonl"):
+        p = json.loads(line)
+        for f in (p.get("anchors") or {}).get("files") or []:
+            m.setdefault(f, []).append(p["id"])
+    return m
+
 def related(pid, patch):
     files = [l[6:].strip() for l in patch.splitlines() if l.startswith("+++ b/")]
     rel = []
+    anc = anchors()
+    for f in files:
+        for q in anc.get(f, []):
+            if q not in rel and q not in ("C01", "C02", "C16"):
+                rel.append(q)
     if any(f.split("/")[0] in ("heap", "bstree", "trie", "queue", "stack", "cache", "list") for f in files):
         rel += ["C02", "C01"]
     if any("/" not in f for f in files):
@@ -36,7 +50,10 @@ def main():
         try:
             a = subprocess.run(["git", "-C", d, "apply", os.path.join(sdir, "patch.diff")], capture_output=True, text=True)
             if a.returncode != 0:
-                print(sid, "PATCH DOES NOT APPLY", a.stderr[:200]); continue
+                # the code this change touches was repaired by a later fix: keep the last result, say so
+                meta["latest"] = dict(meta.get("latest") or {}, stale="patch no longer applies to /repo HEAD (the lines it changes were rewritten by a later fix: commit); last result kept")
+                json.dump(meta, open(os.path.join(sdir, "meta.json"), "w"), indent=1)
+                print(sid, "PATCH DOES NOT APPLY (kept last result)", flush=True); continue
             res = {}
             caught_by = None
             plan = [(pid, "quick")] + [(r, "quick") for r in related(pid, patch)] + [(pid, "thorough")]
@@ -72,10 +89,12 @@ def write_matrix():
             first = lat["checks"][lat["caught_by"]]["first"]
             sub = first.split("check=")[1].split(" ")[0] if "check=" in first else ""
             cb = "%s (sub-check %s, %.0f s)" % (lat["caught_by"], sub, lat["checks"][lat["caught_by"]]["wall_s"])
-        elif lat:
+        elif lat and lat.get("checks"):
             cb = "**missed** (" + ", ".join(lat["checks"].keys()) + ")"
         else:
             cb = "(not re-run)"
+        if lat.get("stale"):
+            cb += " [" + lat["stale"] + "]"
         imp = "caught" if any(v["exit"] == 1 for v in m["checks_run"].values()) else "missed"
         out.append("| %s | %s | %s | %s | %s |" % (m["id"], m["breaks_property"], what, cb, imp))
     open(ROOT + "/seeded/MATRIX.md", "w").write("\n".join(out) + "\n")
